@@ -428,7 +428,10 @@ def default_before_use(ctx, report):
 def keys_and_split(ctx, report):
     mod = ctx.index.by_path[GEOM]
     for name in ("Size", "Point", "Stretch", "Padding", "Alignment", "Layout"):
-        S.rule_eqhash(report, mod.classes[name], {"Layout": {"webvtt_positioning": "not a geometric component"}},
-                      clause="5")
+        report.structural_section(f"{name} __eq__/__hash__ (shape)", "R-GRID on a grid of values of the class (geometry_value_fold)",
+                                  S.rule_eqhash, report, mod.classes[name],
+                                  {"Layout": {"webvtt_positioning": "not a geometric component"}}, clause="5")
+    from . import geometry_value_fold
+    geometry_value_fold.run(ctx, report, clause_eq="5", clause_immut=None)
     from . import webvtt_cues
     webvtt_cues.splitting(ctx, report, "5")
